@@ -169,6 +169,64 @@ func c39Request(u *c39Uni, cmds []c39Cmd) []byte {
 	return buf.Bytes()
 }
 
+// c39BadPack serves a request whose pack is truncated and checks the invariants.
+func c39BadPack(st storage.Storer, u *c39Uni, s0 c39State, req []c39Cmd, reqBytes []byte, hooks transport.ReceivePackHooks) (probs []string) {
+	report, _, err := func() (m map[string]string, up string, err error) {
+		defer func() {
+			if r := recover(); r != nil {
+				err = fmt.Errorf("panic: %v", r)
+			}
+		}()
+		return c39ServeHooks(st, reqBytes, hooks)
+	}()
+	if err != nil {
+		return []string{"truncated pack: " + normErr(err)}
+	}
+	got := c39Refs(st, u)
+	for _, cm := range req {
+		before, ok := s0.refs[cm.ref]
+		if !ok {
+			before = "zero"
+		}
+		after, ok := got[cm.ref]
+		if !ok {
+			after = "zero"
+		}
+		applied := after != before
+		switch {
+		case applied && after != cm.new:
+			probs = append(probs, "truncated pack: the ref took a value no command asked for")
+		case applied && before != cm.old:
+			probs = append(probs, "truncated pack: a command with a stale old value was applied")
+		case applied && report[cm.ref] != "ok":
+			probs = append(probs, "truncated pack: a command was applied but not reported ok")
+		case !applied && report[cm.ref] == "ok" && cm.new != before:
+			probs = append(probs, "truncated pack: a command reported ok was not applied")
+		}
+	}
+	for _, v := range got {
+		// the commit and everything it needs must be there, not just the commit object
+		h := u.h[v]
+		if st.HasEncodedObject(h) != nil {
+			probs = append(probs, "truncated pack: ref points to an object missing from the repository")
+			continue
+		}
+		if cmt, err := object.GetCommit(st, h); err != nil {
+			probs = append(probs, "truncated pack: ref points to an unreadable commit")
+		} else if tr, err := cmt.Tree(); err != nil {
+			probs = append(probs, "truncated pack: ref points to a commit whose tree is missing")
+		} else {
+			for _, e := range tr.Entries {
+				if st.HasEncodedObject(e.Hash) != nil {
+					probs = append(probs, "truncated pack: ref points to a commit whose blob is missing")
+				}
+			}
+		}
+	}
+	sort.Strings(probs)
+	return dedup(probs)
+}
+
 type nopWC struct{ io.Writer }
 
 func (nopWC) Close() error { return nil }
@@ -230,7 +288,7 @@ func c39Refs(st storage.Storer, u *c39Uni) map[string]string {
 
 func runC39(c *fw.Ctx) {
 	u := c39Universe()
-	c.SetRule("server states = refs {a,b} x {absent,h1,h2,h3} (+ whether h3's objects are stored); requests = every set of 1-2 commands on distinct refs with old in {zero,h1,h2} and new in {zero,h1 (stored), h3 (delivered in the pack), hM (nowhere)}; explicit-state BFS over all server states reachable within 2 requests, each transition executed by the real transport.ReceivePack (stateless, report-status) on a memory and on a filesystem(mcfs) server preloaded to the model state; oracle = CAS model: a command is applied iff its old value equals the current one and its new object exists; no ref may point to a missing object; the report-status line of each ref is ok iff it was applied; plus (sched) two concurrent pushes with the same old value on one filesystem server under every interleaving of filesystem calls: exactly one may win. distinct = (state, request, outcome) classes")
+	c.SetRule("server states = refs {a,b} x {absent,h1,h2,h3} (+ whether h3's objects are stored); requests = every set of 1-2 commands on distinct refs with old in {zero,h1,h2} and new in {zero,h1 (stored), h3 (delivered in the pack), hM (nowhere)}; explicit-state BFS over all server states reachable within 2 requests, each transition executed by the real transport.ReceivePack (stateless, report-status) on a memory and on a filesystem(mcfs) server preloaded to the model state; oracle = CAS model: a command is applied iff its old value equals the current one and its new object exists; no ref may point to a missing object; the report-status line of each ref is ok iff it was applied; each transition also on a server whose refs are packed-only, with a refusing pre-receive hook (nothing applied, all ng) and with a truncated pack (invariants: applied => old matched, new stored with its tree and blob, reported ok); the post-receive hook must be told exactly the applied commands; plus (sched) every pair of conflicting single-command pushes over {update, create, delete} on one ref (loose, packed-only or absent) of one filesystem server under every interleaving of filesystem calls: reported outcomes and final value must be those of one of the two serial orders. distinct = (state, request, outcome) classes")
 	c.Assume("duplicate ref names within one request are excluded (the report format is keyed by name); atomic and push-options not driven")
 	olds := []string{"zero", "h1", "h2"}
 	news := []string{"zero", "h1", "h3", "hM"}
@@ -258,7 +316,11 @@ func runC39(c *fw.Ctx) {
 	}
 	c.Bound("requests_per_state", len(reqs))
 	c.Bound("request_depth", 2)
-	backends := []string{"memory", "filesystem"}
+	// backend variants: "+packed" = the server's refs live only in packed-refs (as after gc);
+	// "+reject" = a pre-receive hook refuses the push (nothing may be applied, every line ng);
+	// "+badpack" = the pack arrives truncated (unpack fails: nothing may be applied, no line ok)
+	backends := []string{"memory", "filesystem", "filesystem+packed", "memory+reject", "filesystem+reject", "memory+badpack", "filesystem+packed+badpack"}
+	c.Bound("server_variants", len(backends))
 	init := c39State{refs: map[string]string{"a": "h1"}}
 	seen := map[string]c39State{init.key(): init}
 	frontier := []c39State{init}
@@ -287,11 +349,12 @@ func runC39(c *fw.Ctx) {
 			desc := fmt.Sprintf("state{%s} request[%s]", j.s.key(), strings.Join(rs, " "))
 			for _, be := range backends {
 				var st storage.Storer
-				if be == "memory" {
+				if strings.HasPrefix(be, "memory") {
 					st = memory.NewStorage()
 				} else {
 					st = filesystem.NewStorage(mcfs.NewWorld().View("/g", "g"), cache.NewObjectLRUDefault())
 				}
+				reject, badpack := strings.Contains(be, "+reject"), strings.Contains(be, "+badpack")
 				c39Preload(st, u, j.s)
 				if j.s.h3 {
 					pw, _ := st.(interface{ PackfileWriter() (io.WriteCloser, error) })
@@ -308,13 +371,63 @@ func runC39(c *fw.Ctx) {
 						packfile.UpdateObjectStorage(st, bytes.NewReader(u.pack))
 					}
 				}
+				if strings.Contains(be, "+packed") {
+					if err := st.(interface{ PackRefs() error }).PackRefs(); err != nil {
+						fw.Abort("preload pack-refs: %v", err)
+					}
+				}
+				// what must happen on this variant
+				expect, model := expect, model
+				var hooks0 transport.ReceivePackHooks
+				reqBytes := c39Request(u, j.req)
+				if badpack {
+					needPack := false
+					for _, cm := range j.req {
+						needPack = needPack || cm.new != "zero"
+					}
+					if !needPack {
+						continue
+					}
+					reqBytes = reqBytes[:len(reqBytes)-len(u.pack)/2]
+				}
+				if badpack {
+					// Unpacking fails. git refuses every command then; the statement only asks for
+					// consistency, so the oracle here is the invariant form: a command may be applied only
+					// if its old value matched and its new object is stored, an applied command must be
+					// reported ok, an unapplied one must not be.
+					badProbs := c39BadPack(st, u, j.s, j.req, reqBytes, hooks0)
+					c.Eval()
+					for _, p := range badProbs {
+						c.Fail(be+" | "+p, desc+" on "+be+": "+p, map[string]any{"state": j.s.key(), "request": rs, "backend": be})
+					}
+					c.Class(fmt.Sprintf("%s|%s|badpack|%d", j.s.key(), strings.Join(rs, " "), len(badProbs)))
+					continue
+				}
+				if reject {
+					model = j.s.clone()
+					expect = map[string]bool{}
+					for _, cm := range j.req {
+						expect[cm.ref] = false
+					}
+				}
+				var hooks transport.ReceivePackHooks
+				if reject {
+					hooks.PreReceive = func(context.Context, *transport.PreReceiveInfo) error { return fmt.Errorf("policy says no") }
+				}
+				var postApplied []string
+				hooks.PostReceive = func(_ context.Context, info *transport.PostReceiveInfo) error {
+					for _, cm := range info.Commands {
+						postApplied = append(postApplied, strings.TrimPrefix(cm.Name.String(), "refs/heads/"))
+					}
+					return nil
+				}
 				report, unpack, err := func() (m map[string]string, up string, err error) {
 					defer func() {
 						if r := recover(); r != nil {
 							err = fmt.Errorf("panic: %v", r)
 						}
 					}()
-					return c39Serve(st, c39Request(u, j.req))
+					return c39ServeHooks(st, reqBytes, hooks)
 				}()
 				c.Eval()
 				if err != nil {
@@ -330,7 +443,9 @@ func runC39(c *fw.Ctx) {
 						curBefore = "zero"
 					}
 					why := "old matches"
-					if curBefore != cm.old {
+					if reject {
+						why = "refused by the pre-receive hook"
+					} else if curBefore != cm.old {
 						why = "old value is stale"
 					} else if !applied {
 						why = "new object is missing"
@@ -352,6 +467,20 @@ func runC39(c *fw.Ctx) {
 					}
 					if report[cm.ref] != wantRep && (wantPresent == gotPresent && wantVal == gotVal) {
 						probs = append(probs, fmt.Sprintf("%s (%s): report says %q but the update was applied=%v", kind, why, report[cm.ref], applied))
+					}
+				}
+				// the post-receive hook is told exactly the applied commands
+				{
+					var want []string
+					for _, cm := range j.req {
+						if expect[cm.ref] {
+							want = append(want, cm.ref)
+						}
+					}
+					sort.Strings(want)
+					sort.Strings(postApplied)
+					if strings.Join(want, ",") != strings.Join(postApplied, ",") && len(probs) == 0 {
+						probs = append(probs, fmt.Sprintf("post-receive hook was told %d applied command(s), %d were applied", len(postApplied), len(want)))
 					}
 				}
 				// no ref may point to a missing object
@@ -385,21 +514,60 @@ func runC39(c *fw.Ctx) {
 	}
 	c.States(len(seen))
 	c.Transitions(totalTrans * len(backends))
+	c.Assume("a refused or failed push is observed through the refs, the report and the post-receive hook; the unpack line itself is not compared")
 	c.Sample(map[string]any{"state": init.key(), "request": []string{"a:h1->h3", "b:zero->hM"}, "expected": "a applied, b refused"})
-	c39Concurrent(c, u, false)
-	c39Concurrent(c, u, true)
+	// concurrent part: every pair of single-command pushes {update, create, delete} that conflict on ref a
+	u2, u3 := c39Push{"h1", "h2"}, c39Push{"h1", "h3"}
+	cr2, cr3 := c39Push{"zero", "h2"}, c39Push{"zero", "h3"}
+	del := c39Push{"h1", "zero"}
+	type scen struct {
+		init   string
+		pa, pb c39Push
+	}
+	var scens []scen
+	for _, in := range []string{"loose ref", "packed-only ref"} {
+		scens = append(scens, scen{in, u2, u3}, scen{in, u2, del}, scen{in, del, u3}, scen{in, del, del}, scen{in, u2, cr3})
+	}
+	scens = append(scens, scen{"absent", cr2, cr3}, scen{"absent", cr2, u3}, scen{"absent", cr2, cr2})
+	c.Bound("concurrent_scenarios", len(scens))
+	budget := time.Duration(c.Pick(60, 900)) * time.Second
+	c.ParDo(len(scens), 0, func(i int) {
+		sc := scens[i]
+		c39Concurrent(c, u, sc.init, sc.pa, sc.pb, budget)
+	})
 	c.TracesValidated(0)
 }
 
-// c39Concurrent: two pushes updating the same ref from the same old value on
-// one filesystem server, under every interleaving of filesystem calls.
-func c39Concurrent(c *fw.Ctx, u *c39Uni, packedRef bool) {
+// c39Push is one single-command push of the concurrent part.
+type c39Push struct{ old, new string }
+
+func (p c39Push) String() string { return "a:" + p.old + "->" + p.new }
+
+// c39Serial applies p to cur under the CAS rule (every new value used here is stored on the server).
+func c39Serial(cur string, p c39Push) (string, bool) {
+	if cur != p.old {
+		return cur, false
+	}
+	return p.new, true
+}
+
+// c39Concurrent: two single-command pushes on the same ref of one filesystem
+// server (two server processes = two storage instances over one mcfs tree),
+// under every interleaving of filesystem calls. The pair of reported outcomes
+// and the final value must be those of one of the two serial orders.
+func c39Concurrent(c *fw.Ctx, u *c39Uni, init string, pa, pb c39Push, budget time.Duration) {
 	maxPre := c.Pick(1, 2)
 	c.Bound("concurrent_max_preemptions", maxPre)
 	base := mcfs.NewWorld()
+	cur0 := "zero"
 	{
 		st := filesystem.NewStorage(base.View("/g", "g"), cache.NewObjectLRUDefault())
-		c39Preload(st, u, c39State{refs: map[string]string{"a": "h1"}})
+		s0 := c39State{refs: map[string]string{}}
+		if init != "absent" {
+			s0.refs["a"] = "h1"
+			cur0 = "h1"
+		}
+		c39Preload(st, u, s0)
 		// h3's objects are already on the server (loose: with a single pack per push the order of
 		// filesystem calls does not depend on Go's map iteration): the pushes only race on the ref
 		for _, o := range u.h3objs {
@@ -407,7 +575,7 @@ func c39Concurrent(c *fw.Ctx, u *c39Uni, packedRef bool) {
 				fw.Abort("preload: %v", err)
 			}
 		}
-		if packedRef {
+		if init == "packed-only ref" {
 			// the contended reference exists only in packed-refs (as after gc): the check-and-set
 			// has to create the loose file, a different code path from rewriting an existing one
 			if err := st.PackRefs(); err != nil {
@@ -415,8 +583,23 @@ func c39Concurrent(c *fw.Ctx, u *c39Uni, packedRef bool) {
 			}
 		}
 	}
-	reqA := c39Request(u, []c39Cmd{{"a", "h1", "h2"}})
-	reqB := c39Request(u, []c39Cmd{{"a", "h1", "h3"}})
+	// the serial outcomes
+	type outcome struct {
+		okA, okB bool
+		final    string
+	}
+	var serial []outcome
+	{
+		v, okA := c39Serial(cur0, pa)
+		v, okB := c39Serial(v, pb)
+		serial = append(serial, outcome{okA, okB, v})
+		v, okB = c39Serial(cur0, pb)
+		v, okA = c39Serial(v, pa)
+		serial = append(serial, outcome{okA, okB, v})
+	}
+	reqA := c39Request(u, []c39Cmd{{"a", pa.old, pa.new}})
+	reqB := c39Request(u, []c39Cmd{{"a", pb.old, pb.new}})
+	scen := fmt.Sprintf("%s) [%s | %s]", init, pa, pb)
 	var execs atomic.Int64
 	outcomes := map[string]bool{}
 	body := func(x *vsched.Exec) func(*vsched.Exec) string {
@@ -460,21 +643,34 @@ func c39Concurrent(c *fw.Ctx, u *c39Uni, packedRef bool) {
 				return "deadlock"
 			}
 			w.SetHook(nil)
-			final := c39Refs(filesystem.NewStorage(w.View("/g", "final"), cache.NewObjectLRUDefault()), u)
-			sig := fmt.Sprintf("A=%v B=%v final=%v", res[0]["a"], res[1]["a"], final["a"])
-			outcomes[sig] = true
-			okA, okB := res[0]["a"] == "ok", res[1]["a"] == "ok"
-			switch {
-			case errs[0] != nil || errs[1] != nil:
-				return fmt.Sprintf("ReceivePack failed: %v / %v", errs[0], errs[1])
-			case okA && okB:
-				return "both conflicting updates (same old value) were reported as applied: " + sig
-			case okA && final["a"] != "h2", okB && final["a"] != "h3":
-				return "the update reported as applied is not the final value: " + sig
-			case !okA && !okB && final["a"] != "h1":
-				return "no update reported as applied but the ref changed: " + sig
+			final, ok := c39Refs(filesystem.NewStorage(w.View("/g", "final"), cache.NewObjectLRUDefault()), u)["a"]
+			if !ok {
+				final = "zero"
 			}
-			return ""
+			sig := fmt.Sprintf("A=%v B=%v final=%v", res[0]["a"], res[1]["a"], final)
+			outcomes[sig] = true
+			if (errs[0] != nil && res[0] == nil) || (errs[1] != nil && res[1] == nil) {
+				return fmt.Sprintf("ReceivePack failed: %v / %v", errs[0], errs[1])
+			}
+			got := outcome{res[0]["a"] == "ok", res[1]["a"] == "ok", final}
+			for _, s := range serial {
+				if s == got {
+					return ""
+				}
+			}
+			bothPossible := false
+			for _, s := range serial {
+				bothPossible = bothPossible || (s.okA && s.okB)
+			}
+			switch {
+			case got.okA && got.okB && !bothPossible:
+				return "both conflicting commands (no serial order applies both) were reported as applied: " + sig
+			case !got.okA && !got.okB && final != cur0:
+				return "no command reported as applied but the ref changed: " + sig
+			case (got.okA != got.okB) && ((got.okA && final != pa.new) || (got.okB && final != pb.new)):
+				return "the command reported as applied is not the final value: " + sig
+			}
+			return "reported outcomes and final value match no serial order: " + sig
 		}
 	}
 	if os.Getenv("VERIF_DEBUG") != "" {
@@ -496,26 +692,22 @@ func c39Concurrent(c *fw.Ctx, u *c39Uni, packedRef bool) {
 			fmt.Printf("%s %-70s | %s\n", mark, a, b)
 		}
 	}
-	deadline := time.Now().Add(time.Duration(c.Pick(40, 600)) * time.Second)
+	deadline := time.Now().Add(budget)
 	st := vsched.Explore(vsched.Config{MaxPreemptions: maxPre, Deadline: deadline}, body, func(f vsched.Failure) bool {
 		k := f.What
 		if i := strings.Index(k, ": A="); i > 0 {
 			k = k[:i]
 		}
-		kind := "loose ref"
-		if packedRef {
-			kind = "packed-only ref"
-		}
-		c.Fail("concurrent pushes ("+kind+") | "+k, "two concurrent pushes a:h1->h2 and a:h1->h3 on one filesystem server ("+kind+"): "+f.What, map[string]any{"choices": f.Choices, "log": f.Log})
-		return false
-	}, func(msg string) { c.EngineError("concurrent pushes: %s", msg) })
+		c.Fail("concurrent pushes ("+scen+" | "+k, "two concurrent pushes on one filesystem server ("+scen+": "+f.What, map[string]any{"choices": f.Choices, "log": f.Log})
+		return true // collect every anomaly kind of the scenario (a listed kind must not hide another)
+	}, func(msg string) { c.EngineError("concurrent pushes (%s: %s", scen, msg) })
 	c.Evals(st.Executions)
-	c.Extra(fmt.Sprintf("concurrent_schedules(packed=%v)", packedRef), st.Executions)
-	c.Extra(fmt.Sprintf("concurrent_outcomes(packed=%v)", packedRef), len(outcomes))
+	c.Extra("concurrent_schedules("+scen, st.Executions)
+	c.Extra("concurrent_outcomes("+scen, len(outcomes))
 	if !st.Complete {
-		c.Incomplete("deadline inside the concurrent-push exploration")
+		c.Incomplete("deadline inside the concurrent-push exploration (" + scen)
 	}
 	for o := range outcomes {
-		c.Class(fmt.Sprintf("concurrent|%v|%s", packedRef, o))
+		c.Class(fmt.Sprintf("concurrent|%s|%s", scen, o))
 	}
 }
